@@ -68,6 +68,16 @@ def corpus(canary_path):
         '<g opacity="nan"><rect width="9" height="9"/><circle r="3"/></g>',
         '<defs><clipPath id="a" clip-path="url(#b)"><rect width="5" height="5"/></clipPath><clipPath id="b" clip-path="url(#b)"><rect width="5" height="5"/></clipPath></defs><rect width="9" height="9" clip-path="url(#a)"/>',
         '<defs><linearGradient id="h" xlink:href="#i"/><linearGradient id="i" xlink:href="#h"/></defs><rect width="9" height="9" fill="url(#h)" transform="translate(1 1)"/>',
+        # a use cycle whose references carry white space
+        '<g id="a"><rect width="5" height="5"/><use xlink:href="#a "/></g>',
+        '<g id="a"><use xlink:href=" #b"/></g><g id="b"><use xlink:href="#a"/><rect width="5" height="5"/></g>',
+        # unsupported content below a group that survives the conversion: raise, or return a picosvg
+        '<g opacity="0.5"><text x="1" y="9">t</text><rect width="9" height="9"/><circle r="4"/></g>',
+        '<defs><linearGradient id="g"><stop offset="0" stop-color="red"/><animate attributeName="x1" to="1"/></linearGradient></defs><g opacity="0.4"><rect width="9" height="9" fill="url(#g)"/><image width="3" height="3"/><circle r="4"/></g>',
+        # a gradient chain that runs into a cycle it is not part of
+        '<defs><linearGradient id="g0" xlink:href="#ga"/><linearGradient id="ga" xlink:href="#gb"/><linearGradient id="gb" xlink:href="#ga"/></defs><rect width="9" height="9" fill="url(#g0)" transform="translate(1 1)"/>',
+        # a clipPath that clips itself, with enough geometry that a thousand rounds of resolving it would take minutes
+        '<defs><clipPath id="a" clip-path="url(#a)">%s</clipPath></defs><path d="M0,0 L90,0 L90,90 Z" clip-path="url(#a)"/>' % "".join('<circle cx="%d" cy="%d" r="7"/>' % (5 + 9 * (i % 10), 5 + 9 * (i // 10)) for i in range(60)),
     ]] + [("corpus", '<!DOCTYPE svg [<!ENTITY xxe SYSTEM "file://%s">]><svg %s viewBox="0 0 100 100">&xxe;<rect width="5" height="5"/></svg>' % (canary_path, NS)),
           ("corpus", '<!DOCTYPE svg [<!ENTITY a "aaaaaaaaaa"><!ENTITY b "&a;&a;&a;&a;&a;&a;&a;&a;"><!ENTITY c "&b;&b;&b;&b;&b;&b;&b;&b;">]><svg %s viewBox="0 0 100 100"><desc>&c;</desc><circle r="4"/></svg>' % NS)]
 
